@@ -611,6 +611,10 @@ func runWorld(r *rand.Rand, w int, scBase *int, tw *vh.TraceWriter, res *vh.Resu
 	for _, o := range ops {
 		desc.Ops = append(desc.Ops, o.String())
 	}
+	if progressLen >= 0 {
+		dj, _ := json.Marshal(desc)
+		progress("world ", w, " ", string(dj))
+	}
 	// ------------------------------------------------------------ pairs (one Trace_Hist scenario each)
 	var pairs []*pairState
 	byRS := map[[2]int][]*pairState{}
@@ -909,6 +913,7 @@ func worlds(args []string) {
 	for k, v := range counters.Counters {
 		res.Count(k, v)
 	}
+	res.Count("harness_sys_mb", sysMB())
 	b, err := json.Marshal(descs)
 	vh.Must(err)
 	vh.Must(os.WriteFile(*descF, b, 0o644))
